@@ -578,7 +578,18 @@ func drawExchange(t *rapid.T) exchangeBatch {
 				m["components"] = comps
 			}
 			comps["securitySchemes"] = map[string]any{"bearerAuth": map[string]any{"type": "http", "scheme": "bearer"}, "key": map[string]any{"type": "apiKey", "in": "header", "name": "X-Key"}}
-			m["security"] = []any{map[string]any{"bearerAuth": []any{}}, map[string]any{"key": []any{}}}
+			if rapid.IntRange(0, 3).Draw(t, "globalsec") > 0 {
+				m["security"] = []any{map[string]any{"bearerAuth": []any{}}, map[string]any{"key": []any{}}}
+			}
+			// operations WITHOUT parameters and body whose own requirement list takes every shape: empty list,
+			// only the anonymous alternative, anonymous next to a real one, a conjunction, a single scheme
+			for k, sec := range [][]any{{}, {map[string]any{}}, {map[string]any{}, map[string]any{"key": []any{}}},
+				{map[string]any{"bearerAuth": []any{}, "key": []any{}}}, {map[string]any{"key": []any{}}}, {map[string]any{}, map[string]any{}}} {
+				op := map[string]any{"operationId": fmt.Sprintf("zbare%d", k), "security": sec,
+					"responses": map[string]any{"200": map[string]any{"description": "r"}}}
+				method := []string{"get", "post", "delete"}[k%3]
+				paths[fmt.Sprintf("/zbare%d", k)] = map[string]any{method: op}
+			}
 		}
 		if len(keys) > 0 && rapid.Bool().Draw(t, "skipone") {
 			// the operation that comes first in the document cannot be generated
